@@ -28,6 +28,15 @@ type guardedAction struct {
 	Guard  []string
 	Action string
 	Pos    token.Pos
+	Node   ast.Node             // the statement
+	Atoms  map[string]guardAtom // for each atomic guard literal: the expression it renders and its polarity
+}
+
+// guardAtom is an atomic condition of a guard: Expr holds when Neg is false, does not hold when Neg is true. (For a
+// comparison the rendered literal already has its operator flipped; Expr is the original comparison.)
+type guardAtom struct {
+	Expr ast.Expr
+	Neg  bool
 }
 
 func (g guardedAction) String() string {
@@ -73,6 +82,7 @@ func guardedActions(f *FuncInfo, root ast.Node) []guardedAction {
 	// through && / || (De Morgan), local boolean variables with one definition are replaced by what defines them, nested
 	// conjunctions and disjunctions are flattened and their operands sorted. The guard of an action is the set of
 	// top-level conjuncts, so `a && b`, nested ifs, `!(!a || !b)` and a swapped if/else all give the same guard.
+	atoms := map[string]guardAtom{}
 	var nnf func(e ast.Expr, neg bool) (op string, parts []string) // op: "and", "or", "atom"
 	flipCmp := map[token.Token]token.Token{token.EQL: token.NEQ, token.NEQ: token.EQL, token.LSS: token.GEQ, token.GEQ: token.LSS, token.GTR: token.LEQ, token.LEQ: token.GTR}
 	render := func(op string, parts []string) string {
@@ -112,9 +122,13 @@ func guardedActions(f *FuncInfo, root ast.Node) []guardedAction {
 			}
 			if op, ok := flipCmp[x.Op]; ok {
 				if neg {
-					return "atom", []string{desc(&ast.BinaryExpr{X: x.X, Op: op, Y: x.Y, OpPos: x.OpPos})}
+					s := desc(&ast.BinaryExpr{X: x.X, Op: op, Y: x.Y, OpPos: x.OpPos})
+					atoms[s] = guardAtom{Expr: x, Neg: true}
+					return "atom", []string{s}
 				}
-				return "atom", []string{desc(x)}
+				s := desc(x)
+				atoms[s] = guardAtom{Expr: x, Neg: false}
+				return "atom", []string{s}
 			}
 		case *ast.Ident:
 			// a local boolean with a single definition stands for its definition (isEnd := !isStart)
@@ -129,9 +143,13 @@ func guardedActions(f *FuncInfo, root ast.Node) []guardedAction {
 			}
 		}
 		if neg {
-			return "atom", []string{"!" + desc(e)}
+			s := "!" + desc(e)
+			atoms[s] = guardAtom{Expr: e, Neg: true}
+			return "atom", []string{s}
 		}
-		return "atom", []string{desc(e)}
+		s := desc(e)
+		atoms[s] = guardAtom{Expr: e, Neg: false}
+		return "atom", []string{s}
 	}
 	condParts := func(e ast.Expr, negate bool) []string {
 		op, parts := nnf(e, negate)
@@ -194,7 +212,13 @@ func guardedActions(f *FuncInfo, root ast.Node) []guardedAction {
 				gg = append(gg, s)
 			}
 		}
-		out = append(out, guardedAction{Guard: gg, Action: action, Pos: n.Pos()})
+		am := map[string]guardAtom{}
+		for _, s := range gg {
+			if a, ok := atoms[s]; ok {
+				am[s] = a
+			}
+		}
+		out = append(out, guardedAction{Guard: gg, Action: action, Pos: n.Pos(), Node: n, Atoms: am})
 	}
 	// diverts: the block always leaves the enclosing statement list (return, break, continue, goto, panic)
 	diverts := func(b *ast.BlockStmt) bool {
@@ -285,6 +309,15 @@ func guardedActions(f *FuncInfo, root ast.Node) []guardedAction {
 				cc := cl.(*ast.CaseClause)
 				g := append([]string(nil), guard...)
 				switch {
+				case cc.List == nil && x.Tag == nil:
+					// the default of a tagless switch is "none of the cases": the negation of each
+					for _, cl2 := range x.Body.List {
+						if cc2 := cl2.(*ast.CaseClause); cc2.List != nil {
+							for _, e := range cc2.List {
+								g = append(g, condParts(e, true)...)
+							}
+						}
+					}
 				case cc.List == nil:
 					g = append(g, "default")
 				case x.Tag == nil && len(cc.List) == 1:
